@@ -152,6 +152,45 @@ def check_iterators(chk, m, L, N, I):
         ok = st.get(I["prevnext"]) == paths.mkptr(("arg", 0), head_o) and st.get(I["list"]) == ("arg", 0) and \
             p.ret is not None and p.ret[0] == "ld" and p.ret[1] == paths.mkptr(("arg", 0), head_o)
         chk.ob("N5.iterate", "list_iterate", ok, "prevnext = &list->head, list recorded, returns the head", fn.loc, fn.name)
+    # the two observers defined in list.h (every user of a queue relies on them): empty <=> head == NULL, peek == head
+    head_o = L["head"]
+    extra_mods = [build.compile_text("c09_witness.c", "#include <librfn/list.h>\nbool w_e(list_t *l) { return list_empty(l); }\n"
+                                     "list_node_t *w_p(list_t *l) { return list_peek(l); }\n")]
+    chk.note_unit(extra_mods[0])
+    for hname in ("list_empty", "list_peek"):
+        owner = None
+        for mod in [m] + [x for x in extra_mods if x.has_fn(hname) and not x.functions[hname].decl]:
+            if mod.has_fn(hname) and not mod.functions[hname].decl:
+                owner = mod
+                break
+        if owner is None:
+            chk.unknown("N6.observers", hname, "inline function not emitted in any analysed unit")
+            continue
+        hf = owner.functions[hname]
+        for p in paths.enumerate_paths(hf, owner):
+            r = strip_casts(p.ret) if p.ret is not None else None
+            head = ("ld", paths.mkptr(("arg", 0), head_o))
+            if hname == "list_peek":
+                ok = r is not None and r[:2] == head
+                chk.ob("N6.observers", "list_peek", ok, "list_peek returns list->head (got %s)" % fmt(p.ret)[:40], hf.loc, hname)
+            else:
+                # a constant selected by a test of head, or the comparison itself
+                ok = False
+                if r is not None and r[0] == "icmp" and r[1] in ("eq", "ne") and ("null",) in (r[2], r[3]):
+                    o = r[2] if r[3] == ("null",) else r[3]
+                    ok = o[:2] == head and r[1] == "eq"
+                elif r is not None and r[0] == "b" and r[1] == "xor":
+                    inner = strip_casts(r[3])
+                    ok = inner[0] == "icmp" and inner[1] == "ne" and (inner[2][:2] == head or inner[3][:2] == head) and ("null",) in (inner[2], inner[3])
+                elif r is not None and r[0] == "c":
+                    for c, taken, inst in p.conds:
+                        cc = strip_casts(c)
+                        if cc[0] == "icmp" and cc[1] in ("eq", "ne") and ("null",) in (cc[2], cc[3]):
+                            o = cc[2] if cc[3] == ("null",) else cc[3]
+                            if o[:2] == head:
+                                ok = ((cc[1] == "eq") == bool(taken)) == bool(r[2])
+                chk.ob("N6.observers", "list_empty " + "->".join(b.lstrip("%") for b in p.blocks), ok,
+                       "list_empty is true exactly when list->head == NULL (got %s)" % fmt(p.ret)[:50], hf.loc, hname)
     fn = m.fn("list_iterator_next")
     for s, p in runs_of(m, fn):
         pid = "list_iterator_next " + "->".join(b.lstrip("%") for b in p.blocks)
@@ -252,18 +291,24 @@ def run(chk):
     chk.rule("N2", "every path that stores a node into a link slot whose old content is NULL or untested (head, tail->next, *prevnext) also stores that node to list->tail")
     chk.rule("N3", "unlinking through an iterator slot compares the victim with list->tail and, if equal, sets tail to containerof(prevnext)")
     chk.rule("N4", "list_insert_sorted: node moves past X iff cmp(node, X) >= 0 at both tests (C02 T4)")
+    chk.rule("N6", "list.h observers: list_empty(l) is true exactly when l->head == NULL; list_peek(l) returns l->head")
     chk.rule("N5", "list_iterate / list_iterator_next / list_contains / list_remove keep the iterator designating the element the API documents")
     chk.assumptions += ["a node is never inserted while it is a member of a list (the property's scope; inserters assert node->next == NULL)",
                         "tail invariant: when the list is non-empty tail->next == NULL (re-established by N2/N3)",
                         "equality with an abstract sequence after arbitrary operation histories is NOT decided"]
     chk.not_decided += ["sequence equivalence over all operation histories", "behaviour of iterators used past the end"]
+    run_rules(chk)
+    chk.rule_prefix = "N4."
+    chk.rule_filter = lambda r: r.startswith("T4")
+    C02.check_t4(chk, build.load_unit(UNIT))
+    chk.rule_prefix = ""
+    chk.rule_filter = None
+
+
+def run_rules(chk):
+    """N1-N3, N5, N6 on list.c / list.h (also imported by the checks whose code stands on the list API)."""
     m = build.load_unit(UNIT)
     chk.note_unit(m)
     L, N, I = layout(m)
     check_structure(chk, m, L, N, I)
     check_iterators(chk, m, L, N, I)
-    chk.rule_prefix = "N4."
-    chk.rule_filter = lambda r: r.startswith("T4")
-    C02.check_t4(chk, m)
-    chk.rule_prefix = ""
-    chk.rule_filter = None
